@@ -80,7 +80,25 @@ def contracts_text():
     return parts
 
 
-def generate(features=("std",), tag="std"):
+def quarantine(gen_text, names):
+    """mark the named exec functions external_body (their bodies use something Verus cannot read)"""
+    gi = GenIndex(gen_text)
+    ins = []
+    for f in gi.funcs:
+        if f["name"] in names and f["mode"] == "exec" and not f["external_body"]:
+            off = gen_text.find(f["text"])
+            if off >= 0:
+                ins.append(off)
+    out, pos = [], 0
+    for off in sorted(ins):
+        out.append(gen_text[pos:off])
+        out.append("#[verifier::external_body] // @quarantined: unsupported construct in the body\n")
+        pos = off
+    out.append(gen_text[pos:])
+    return "".join(out)
+
+
+def generate(features=("std",), tag="std", quarantined=()):
     """returns dict(gen_path, gen_text, extraction, splice)"""
     ext_text, ext_report = extract(features, tag)
     parts = contracts_text()
@@ -94,6 +112,8 @@ def generate(features=("std",), tag="std"):
     if srep["errors"]:
         raise Undecided("splice: " + "; ".join(srep["errors"]))
     gen = pre + gen_code + post
+    if quarantined:
+        gen = quarantine(gen, set(quarantined))
     d = os.path.join(BUILD, tag)
     os.makedirs(d, exist_ok=True)
     gp = os.path.join(d, "indextree_vx.rs")
